@@ -438,3 +438,33 @@ class FieldResetFlow(SlotFlow):
 
     def _may_set(self):
         return set()
+
+
+# ---------------------------------------------------------------------------
+# non-owning captures of a closure that outlives the call that builds it
+LONG_LIVED = ('sim::asio::io_context', 'asio::io_context', 'io_context', 'sim::simulation', 'simulation', 'sim::configuration', 'configuration',
+              'sim::default_config', 'boost::asio::io_context')
+
+
+def _long_lived(t):
+    b = (t or '').replace('const ', '').replace('&', '').replace('*', '').strip()
+    return b in LONG_LIVED
+
+
+def nonowning_captures(fn, lam):
+    """Captures of lambda node `lam` (in fn) that do not own what they refer to: `this`, by-reference captures and
+    raw-pointer captures - except references/pointers to the tabled simulation-lifetime types (LONG_LIVED).
+    Returns [(name, kind, type)]."""
+    out = []
+    for c in lam.get('caps', []):
+        if c.get('this'):
+            out.append(('this', 'this', ''))
+            continue
+        t = fn.ty(c['t']) if 't' in c else (fn.ty(c['init'].get('t')) if isinstance(c.get('init'), dict) else None)
+        if _long_lived(t):
+            continue
+        if c.get('byref'):
+            out.append((c.get('name'), 'by reference', t or ''))
+        elif t and t.rstrip().endswith('*'):
+            out.append((c.get('name'), 'raw pointer', t))
+    return out
